@@ -812,7 +812,13 @@ fn gen_mgr_case(rng: &mut Rng, max_items: usize) -> MgrCase {
     let grids: Vec<Grid> = configured.iter().map(|_| Grid::random(rng)).collect();
     let foreign_grid = Grid::random(rng);
     let mut next_seq: Vec<u64> = configured.iter().map(|_| 0).collect();
-    let mut foreign_seq: u64 = 1_000_000;
+    // the book does not validate sequences (the statement: "the book's sequence is that of the last applied
+    // event"): in half of the cases the venue's counter restarts / jumps, also DOWNWARDS. Sequences stay
+    // unique per book because the monitor identifies the observed prefix by them.
+    let non_monotone = rng.bool();
+    let mut used: Vec<std::collections::HashSet<u64>> = configured.iter().map(|_| Default::default()).collect();
+    let mut n_events: Vec<u32> = configured.iter().map(|_| 0).collect();
+    let mut foreign_seq: u64 = 10_000_000;
     let n_items = rng.range_u(20.min(max_items), max_items);
     let mut feed = Vec::with_capacity(n_items);
     let mut pace = Vec::with_capacity(n_items);
@@ -826,8 +832,15 @@ fn gen_mgr_case(rng: &mut Rng, max_items: usize) -> MgrCase {
         } else {
             let i = rng.usize_below(configured.len());
             // unique, strictly increasing sequence per book; 0 is the initial (default) book
+            if non_monotone && n_events[i] > 0 && rng.chance(1, 5) {
+                next_seq[i] = rng.below(4_000_000);
+            }
             next_seq[i] += 1 + rng.below(3);
-            let first = next_seq[i] <= 3;
+            while !used[i].insert(next_seq[i]) {
+                next_seq[i] += 1;
+            }
+            n_events[i] += 1;
+            let first = n_events[i] <= 2;
             feed.push(Feed::Item { instr: configured[i], ev: gen_event(rng, &grids[i], next_seq[i], if first { 60 } else { 6 }) });
         }
         pace.push(match rng.below(10) {
@@ -920,6 +933,9 @@ fn run_manager_case(rt: &tokio::runtime::Runtime, case: &MgrCase, stats: &mut St
                     models[i].apply(ev, &cb, &ca, stats);
                     let st = RefState::of_model(&models[i]);
                     let k = refs[i].states.len();
+                    if st.sequence < refs[i].states[k - 1].sequence {
+                        stats.cover("manager:event_sequence_lower_than_the_books");
+                    }
                     if refs[i].by_seq.insert(st.sequence, k).is_some() {
                         out.harness_error = Some(format!("feed reuses sequence {} for instrument {instr}", st.sequence));
                         return out;
@@ -1321,6 +1337,7 @@ fn main() {
             "manager:book_map_multi",
             "manager:reconnecting_item_interleaved",
             "manager:event_for_non_configured_instrument",
+            "manager:event_sequence_lower_than_the_books",
             "reader:observed_intermediate_prefix",
             "reader:observed_final_book",
         ] {
